@@ -143,6 +143,10 @@ impl Stats {
 /// A check = workload generator + fault/schedule space + oracle for one property.
 pub trait Check: Sync {
     fn id(&self) -> &'static str;
+    /// property the check decides (several checks may serve one property; evidence file and routing use `id`)
+    fn property(&self) -> &'static str {
+        self.id()
+    }
     /// evidence level category
     fn level(&self) -> &'static str {
         "exploration"
@@ -815,7 +819,8 @@ pub struct CheckOutcome {
 /// minimise + confirm + report, write evidence.
 pub fn check_main(check: &dyn Check, tier: Tier, seed: u64, cases_override: Option<u64>, nshards: u64) -> CheckOutcome {
     let started = Instant::now();
-    let id = check.id();
+    let check_id = check.id();
+    let id = check.property();
     let findings = load_findings();
     let mut violation_lines: Vec<String> = vec![];
     let mut known_lines: BTreeSet<String> = BTreeSet::new();
@@ -828,6 +833,11 @@ pub fn check_main(check: &dyn Check, tier: Tier, seed: u64, cases_override: Opti
         let path = verif_root().join(rel);
         if !path.exists() {
             harness_errors.push(format!("pinned replay missing: {path:?}"));
+            continue;
+        }
+        // a property may be served by several checks: a replay belongs to the check that recorded it
+        let recorded_by = std::fs::read_to_string(&path).ok().and_then(|t| serde_json::from_str::<Json>(&t).ok()).and_then(|v| v["check"].as_str().map(str::to_string));
+        if recorded_by.as_deref() != Some(check_id) {
             continue;
         }
         pinned_run += 1;
@@ -882,18 +892,18 @@ pub fn check_main(check: &dyn Check, tier: Tier, seed: u64, cases_override: Opti
         println!("violation {sig} in {} case(s); first index {index}: {detail}", list.len());
         let (min_case, runs) = minimise(check, case, sig, 3000, if tier == Tier::Quick { 60 } else { 240 });
         // detail of the minimised case + confirmation in a fresh process
-        let confirm = run_case_in_child(id, &min_case, check.hang_limit_s());
+        let confirm = run_case_in_child(check_id, &min_case, check.hang_limit_s());
         match confirm {
             Ok(Some((s, d))) if &s == sig => {
-                let path = write_replay(id, seed, index, sig, &d, &min_case);
+                let path = write_replay(check_id, seed, index, sig, &d, &min_case);
                 println!("minimised in {runs} runs; confirmed in a fresh process: {d}");
                 violation_lines.push(format!("VIOLATION property={id} replay={}", path.display()));
             }
             other => {
                 // try the unminimised case
-                match run_case_in_child(id, case, check.hang_limit_s()) {
+                match run_case_in_child(check_id, case, check.hang_limit_s()) {
                     Ok(Some((s, d))) if &s == sig => {
-                        let path = write_replay(id, seed, index, sig, &d, case);
+                        let path = write_replay(check_id, seed, index, sig, &d, case);
                         println!("minimised case did not reproduce ({other:?}); unminimised case confirmed");
                         violation_lines.push(format!("VIOLATION property={id} replay={}", path.display()));
                     }
@@ -951,14 +961,14 @@ pub fn check_main(check: &dyn Check, tier: Tier, seed: u64, cases_override: Opti
     });
     let evdir = verif_root().join("evidence");
     let _ = std::fs::create_dir_all(&evdir);
-    std::fs::write(evdir.join(format!("{id}.json")), serde_json::to_string_pretty(&evidence).unwrap())
+    std::fs::write(evdir.join(format!("{check_id}.json")), serde_json::to_string_pretty(&evidence).unwrap())
         .expect("write evidence");
 
     for l in &known_lines {
         println!("{l}");
     }
     println!(
-        "{id} {}: {} cases, {} distinct non-trivial, {} states, {} violation(s), {} known-finding signature(s), {:.1}s",
+        "{check_id} {}: {} cases, {} distinct non-trivial, {} states, {} violation(s), {} known-finding signature(s), {:.1}s",
         tier.name(),
         batch.evaluations,
         batch.stats.nontrivial.len(),
